@@ -586,8 +586,13 @@ def merge_cons(outer: Optional[Cons], inner: Optional[Cons]) -> Optional[Cons]:
             res[k] = min(res[k], v)
         elif k == "unique":
             res[k] = res[k] or v
+        elif k == "mult_of" and isinstance(res[k], int) and isinstance(v, int):
+            # both must hold: a multiple of the least common multiple (m1 * m2 // gcd(m1, m2))
+            from math import gcd
+
+            res[k] = res[k] * v // gcd(res[k], v)
         else:
-            res[k] = v  # mult_of / pattern: the outer (nearest to the use) wins
+            res[k] = v  # pattern (two patterns cannot be merged: the library refuses to compile them; not in the pools)
     return Cons(tuple(sorted(res.items())))
 
 
